@@ -18,8 +18,8 @@ vlib.standard_check({
     "exe": "gv_c01",
     "harness": "c01",
     # harness args after the seed: ncases nsteps
-    "streams": {"quick": [[600, 30], [150, 80]], "thorough": [[20000, 30], [4000, 100], [20000, 10]]},
-    "search": [[5000, 30], [1000, 100]],
+    "streams": {"quick": [[600, 30], [150, 80], [4000, "rw"]], "thorough": [[20000, 30], [4000, 100], [20000, 10], [200000, "rw"]]},
+    "search": [[5000, 30], [1000, 100], [50000, "rw"]],
     "signature": signature,
     "eval_key": "ops",
     "nontrivial": lambda t: t.get("boundaries_with_changed_trace", 0) + t.get("cases", 0),
@@ -33,7 +33,10 @@ vlib.standard_check({
             "(register_transitions_rechecked_with_lean_semantics; the transition during which the reset is released is skipped); "
             "autonomous run: the Lean clocked simulator Gatery.Nodes.seqRun is run on both netlists from the stimulus alone (register state carried by the "
             "model from cycle to cycle, restarted from the simulator's registers only where the reset changes) and every node value at every cycle is compared "
-            "with the reference simulator (seqrun_node_values_compared)",
+            "with the reference simulator (seqrun_node_values_compared); "
+            "stream rw: Node_Rewire::optimize() is called on generated rewire operations (zero-width ranges, constant all-zero/all-one/mixed/partly undefined "
+            "drivers behind signal nodes, shared drivers, unconnected inputs, ranges continuing each other); the driver replays Gatery.C01.rewireOptimize (DIFF) "
+            "and evaluates the operation before and after with evalRewire on the driver values (PROPFAIL)",
     "trusted_base": ["Lean 4.33 kernel", "axioms: propext, Classical.choice, Quot.sound only (audited per theorem)",
                      "harness/c01.cpp + designgen.h + Driver/C01.lean", "gatery's ReferenceSimulator as the semantics of both circuits (its own correctness is C03/C04/C08)"],
     "level_text": "Lean theorems: congruence (one locally sound node replacement preserves F on every node value of any netlist; any number of "
@@ -42,7 +45,8 @@ vlib.standard_check({
     "extra_cov": lambda t: {"netlists_rechecked": t.get("netlists_rechecked", 0), "node_values_rechecked_with_lean_semantics": t.get("node_values_rechecked_with_lean_semantics", 0),
                             "register_transitions_rechecked_with_lean_semantics": t.get("register_transitions_rechecked_with_lean_semantics", 0),
                             "register_transitions_with_enable": t.get("register_transitions_with_enable", 0),
-                            "seqrun_node_values_compared": t.get("seqrun_node_values_compared", 0), "seqrun_cycles": t.get("seqrun_cycles", 0)},
+                            "seqrun_node_values_compared": t.get("seqrun_node_values_compared", 0), "seqrun_cycles": t.get("seqrun_cycles", 0),
+                            "rewire_optimize_cases": t.get("rewire_optimize_cases", 0), "rewire_optimize_changed": t.get("rewire_optimize_changed", 0)},
     "assumptions": ["'run free of undefined values' = stimulus and every node output of the unprocessed circuit defined at every sample point",
                     "a design on which post-processing throws is counted (postprocess_threw), not judged"],
 })
